@@ -59,7 +59,7 @@ type TypeInfo struct {
 	Pkg     string             `json:"pkg"`
 	File    string             `json:"file"`
 	Lock    string             `json:"lock"`     // name of the lock field
-	Kind    string             `json:"lockkind"` // mutex | rwmutex | cond | none (no lock field of a known type)
+	Kind    string             `json:"lockkind"` // mutex | rwmutex | cond | locker (a field of another type used as a lock) | none
 	Fields  []string           `json:"fields"`
 	Sub     [][]string         `json:"sub"` // [field, type] for fields holding another table type
 	Methods map[string]*Method `json:"methods"`
@@ -71,7 +71,8 @@ type TypeInfo struct {
 
 // Table is the whole extraction.
 type Table struct {
-	Types map[string]*TypeInfo `json:"types"`
+	Types   map[string]*TypeInfo `json:"types"`
+	Skipped []string             `json:"skipped"` // lock-carrying struct types of the anchored files that are not collections of the property (helpers)
 }
 
 // anchored says whether a source file belongs to the property's anchors.
@@ -173,7 +174,7 @@ func Extract(repo string, must ...string) (*Table, error) {
 		need[n] = true
 	}
 	structs := map[string]bool{} // every struct type of the three packages (node types among them)
-	tab := &Table{Types: map[string]*TypeInfo{}}
+	tab := &Table{Types: map[string]*TypeInfo{}, Skipped: []string{}}
 	fset := token.NewFileSet()
 	type fdecl struct {
 		pkg, file string
@@ -229,6 +230,10 @@ func Extract(repo string, must ...string) (*Table, error) {
 						if ti.Lock == "" {
 							ti.Kind = "none"
 						}
+						if ti.Lock != "" && len(need) > 0 && !need[ts.Name.Name] && anchored(pkg, name) {
+							tab.Skipped = append(tab.Skipped, ts.Name.Name)
+							continue
+						}
 						if (ti.Lock != "" || need[ts.Name.Name]) && anchored(pkg, name) {
 							if _, dup := tab.Types[ts.Name.Name]; dup {
 								return nil, fmt.Errorf("two lock-carrying types named %s", ts.Name.Name)
@@ -244,6 +249,44 @@ func Extract(repo string, must ...string) (*Table, error) {
 				}
 			}
 		}
+	}
+	// a collection of the property whose lock is of no kind known by type: the field its methods call
+	// Lock / Unlock / RLock / RUnlock on is taken for its lock (kind "locker": a lock by its use; it
+	// cannot be held or read from outside, so the footprint of such a type is taken with nothing held)
+	for _, fd := range funcs {
+		ti := tab.Types[typeName(fd.d.Recv.List[0].Type)]
+		if ti == nil || ti.Lock != "" || len(fd.d.Recv.List[0].Names) == 0 {
+			continue
+		}
+		recv := fd.d.Recv.List[0].Names[0].Name
+		ast.Inspect(fd.d.Body, func(n ast.Node) bool {
+			call, ok := n.(*ast.CallExpr)
+			if !ok || ti.Lock != "" {
+				return ti.Lock == ""
+			}
+			sel, ok := call.Fun.(*ast.SelectorExpr)
+			if !ok {
+				return true
+			}
+			switch sel.Sel.Name {
+			case "Lock", "Unlock", "RLock", "RUnlock":
+			default:
+				return true
+			}
+			if f, ok := sel.X.(*ast.SelectorExpr); ok {
+				if id, ok := f.X.(*ast.Ident); ok && id.Name == recv {
+					for i, name := range ti.Fields {
+						if name == f.Sel.Name {
+							ti.Lock, ti.Kind = name, "locker"
+							ti.Fields = append(ti.Fields[:i:i], ti.Fields[i+1:]...)
+							delete(fieldType[ti.name], name)
+							break
+						}
+					}
+				}
+			}
+			return true
+		})
 	}
 	// sub-objects: fields whose type is another table type
 	for tn, ti := range tab.Types {
